@@ -362,6 +362,16 @@ def run(check: Check) -> None:
             if bad:
                 check.violation(f"scale_float(ddof={ddof})::{bad.split(':', 1)[0]}", bad, p)
 
+    for name, vec in (("offset 1e8", [1e8 + k * k for k in range(7)]), ("magnitude 1e-7", [1e-7 * (k + 0.5) ** 2 for k in range(7)]), ("magnitude 1e11", [1e11 * (k + 1) for k in range(7)]),
+                      ("offset -3e9", [-3e9 + 0.25 * k * (k + 1) for k in range(8)])):
+        for deg in (1, 2, 3):
+            p = {"kind": "c13_poly_float", "x": vec, "degree": deg}
+            bad = replays.run(p)
+            check.case(f"poly float {name} degree={deg}")
+            check.obligation("poly.float/ground", "refuted" if bad else "ground")
+            if bad:
+                check.violation(f"poly_float(degree={deg})::{bad.split(':', 1)[0]}", bad, p)
+
     # ---------------------------------------------------------------- elementwise built-ins
     expected = {"log": "LOG", "log2": "LOG2", "log10": "LOG10", "exp": "EXP", "exp2": "EXP2", "exp10": "POW10"}
     for name, sym in expected.items():
